@@ -72,7 +72,7 @@ def roleOk (g : Cfg) (m : Msg) : Prop :=
 theorem start_parse (g : Cfg) (m : Msg) (p : P) (rest : Bytes) (acc : List Ev)
     (hI : Idle g p) (hwf : m.start.wf = true) (hrole : roleOk g m) :
     ∃ tok', specFeed (M g) p [] (m.start.render ++ rest) acc =
-      specFeed (M g) { p with st := .headerKeyBefore } tok' rest (acc ++ m.start.events) := by
+      specFeed (M g) { p with st := .headerKeyBefore, noBody := m.bodiless } tok' rest (acc ++ m.start.events) := by
   obtain ⟨start, headers, body⟩ := m
   cases start with
   | request me t pr =>
@@ -95,7 +95,10 @@ theorem start_parse (g : Cfg) (m : Msg) (p : P) (rest : Bytes) (acc : List Ev)
           simp only [List.all_cons, Bool.and_eq_true, List.all_eq_true] at h2
           exact ⟨t0, ts, rfl, Or.inl h1, fun c hc => (visible_facts c (h2.2 c hc)).1⟩
     refine ⟨[], ?_⟩
-    simp only [Start.render, Start.events, crlf]
+    have e : ({ p with st := .headerKeyBefore, noBody := false } : P) = { p with st := .headerKeyBefore } := by
+      have := hI.noBody
+      cases p; simp_all
+    simp only [Start.render, Start.events, crlf, Msg.bodiless, e]
     exact request_line g p [] me t pr rest acc hst hI.proto hm ht' (http1x_shape pr hpr).1 hu hv
   | status pr code reason =>
     simp only [roleOk] at hrole
@@ -110,7 +113,7 @@ theorem start_parse (g : Cfg) (m : Msg) (p : P) (rest : Bytes) (acc : List Ev)
         right
         simp only [List.all_cons, Bool.and_eq_true, List.all_eq_true] at hrb
         exact ⟨r0, rs, rfl, hr0, fun c hc => fieldByte_facts c (hrb.2 c hc)⟩
-    simp only [Start.render, Start.events, crlf]
+    simp only [Start.render, Start.events, crlf, Msg.bodiless]
     exact status_line g p [] pr code reason rest acc hst hI.proto hI.status hI.statusCode
       (http1x_shape pr hpr).1 (http1x_shape pr hpr).2 hv hl hd hr
 
@@ -122,14 +125,24 @@ theorem msg_parse (g : Cfg) (m : Msg) (p : P) (rest : Bytes) (acc : List Ev)
     ∃ p', Idle g p' ∧
       specFeed (M g) p [] (m.render ++ rest) acc = specFeed (M g) p' [] rest (acc ++ eventsOf m) := by
   simp only [wfMsg, Bool.and_eq_true] at hwf
-  obtain ⟨⟨⟨hstart, hhdrs⟩, _⟩, hbody, _⟩ := hwf
+  obtain ⟨⟨⟨hstart, hhdrs⟩, _⟩, hbody, hrest⟩ := hwf
+  -- a bodiless response of the agreed domain carries no framing fields
+  have hbl : m.bodiless = true → rfc7230Framing m.fields = .none := by
+    intro hb
+    unfold Msg.bodiless at hb
+    split at hb
+    · rename_i pr c r hs
+      rw [hs] at hrest
+      simp only [Bool.and_eq_true, hb, if_true, beq_iff_eq] at hrest
+      exact hrest.2
+    · cases hb
   -- start line
   obtain ⟨tok1, e1⟩ := start_parse g m p ((m.headers.map Hdr.render).flatten ++ crlf ++ m.body.render ++ rest) acc
     hI hstart hrole
   -- header section
   have hpars : ∀ h ∈ m.headers, h.parsable := fun h hh =>
     Hdr.wf_parsable h (List.all_eq_true.mp hhdrs h hh)
-  obtain ⟨tok2, e2⟩ := header_lines g m.headers { p with st := .headerKeyBefore } tok1
+  obtain ⟨tok2, e2⟩ := header_lines g m.headers { p with st := .headerKeyBefore, noBody := m.bodiless } tok1
     (crlf ++ m.body.render ++ rest) (acc ++ m.start.events) rfl hI.hKey hI.hVal hpars
   have hfs : fieldsOf m.headers = m.fields := rfl
   rw [afterHdrs_eq, hfs] at e2
@@ -138,13 +151,14 @@ theorem msg_parse (g : Cfg) (m : Msg) (p : P) (rest : Bytes) (acc : List Ev)
   have e12 := e1.trans e2
   simp only [Msg.render, List.append_assoc, e12]
   -- the state at the blank line
-  generalize hph : ({ p with st := PState.headerKeyBefore, te := valuesOf m.fields (str "Transfer-Encoding"), tr := valuesOf m.fields (str "Trailer"), cl := valuesOf m.fields (str "Content-Length"), headerExists := p.headerExists || !m.headers.isEmpty } : P) = ph
+  generalize hph : ({ p with st := PState.headerKeyBefore, te := valuesOf m.fields (str "Transfer-Encoding"), tr := valuesOf m.fields (str "Trailer"), cl := valuesOf m.fields (str "Content-Length"), noBody := m.bodiless, headerExists := p.headerExists || !m.headers.isEmpty } : P) = ph
   have hq : Quiet ph := by subst hph; exact ⟨hI.proto, hI.statusCode, hI.status, hI.hKey, hI.hVal⟩
   have hst : ph.st = .headerKeyBefore := by subst hph; rfl
   have hte : ph.te = valuesOf m.fields (str "Transfer-Encoding") := by subst hph; rfl
   have hcl : ph.cl = valuesOf m.fields (str "Content-Length") := by subst hph; rfl
   have htr : ph.tr = valuesOf m.fields (str "Trailer") := by subst hph; rfl
   have hch : ph.chunked = false := by subst hph; exact hI.chunked
+  have hnb : ph.noBody = m.bodiless := by subst hph; rfl
   have hbh : ph.bodyHeld = 0 := by subst hph; exact hI.bodyHeld
   have htl : ph.trailer = [] := by subst hph; exact hI.trailer
   generalize hacc : acc ++ (m.start.events ++ List.map (fun h => Ev.header h.key h.evValue) m.headers) = accH
@@ -155,12 +169,21 @@ theorem msg_parse (g : Cfg) (m : Msg) (p : P) (rest : Bytes) (acc : List Ev)
     have hfr : rfc7230Framing m.fields = .none := by
       cases hfr : rfc7230Framing m.fields <;> simp [hfr, bodyMatches] at hbody ⊢
     have ⟨t1, t2⟩ := rfc_none _ hfr
-    obtain ⟨p', hp', e3⟩ := end_none g ph tok2 rest
-      accH hst hq (by rw [hte, t1]) (by rw [hcl, t2]) hch
-    refine ⟨p', hp', ?_⟩
-    simp only [Body.render, crlf, List.append_nil, List.nil_append, List.append_assoc, List.cons_append] at e3 ⊢
-    rw [e3, ← hacc]
-    simp [eventsOf, hb, Body.events, Body.declared]
+    cases hbb : m.bodiless with
+    | false =>
+      obtain ⟨p', hp', e3⟩ := end_none g ph tok2 rest
+        accH hst hq (by rw [hte, t1]) (by rw [hcl, t2]) hch (by rw [hnb, hbb])
+      refine ⟨p', hp', ?_⟩
+      simp only [Body.render, crlf, List.append_nil, List.nil_append, List.append_assoc, List.cons_append] at e3 ⊢
+      rw [e3, ← hacc]
+      simp [eventsOf, hb, Body.events, Body.declared, Msg.declared, hbb]
+    | true =>
+      obtain ⟨p', hp', e3⟩ := end_bodiless g ph tok2 rest
+        accH hst hq (by rw [hte, t1]) (by rw [hcl, t2]) hch (by rw [hnb, hbb])
+      refine ⟨p', hp', ?_⟩
+      simp only [Body.render, crlf, List.append_nil, List.nil_append, List.append_assoc, List.cons_append] at e3 ⊢
+      rw [e3, ← hacc]
+      simp [eventsOf, hb, Body.events, Msg.declared, hbb]
   | fixed d =>
     rw [hb] at hbody hmax
     simp only [Body.bytes] at hmax
@@ -168,14 +191,18 @@ theorem msg_parse (g : Cfg) (m : Msg) (p : P) (rest : Bytes) (acc : List Ev)
       cases hfr : rfc7230Framing m.fields <;> simp [hfr, bodyMatches] at hbody ⊢
       exact hbody
     obtain ⟨n, hfr, hn⟩ := hfr
+    have hbb : m.bodiless = false := by
+      cases hbb : m.bodiless with
+      | false => rfl
+      | true => rw [hbl hbb] at hfr; cases hfr
     obtain ⟨t1, v, t2, t3, t4, t5, t6⟩ := rfc_length _ _ hfr
     obtain ⟨p', hp', e3⟩ := end_length g ph tok2 rest
       accH v d hst hq
-      (by rw [hte, t1]) (by rw [hcl, t2]) hch hbh t3 t4 t5 (by rw [hn, t6]) hmax
+      (by rw [hte, t1]) (by rw [hcl, t2]) hch (by rw [hnb, hbb]) hbh t3 t4 t5 (by rw [hn, t6]) hmax
     refine ⟨p', hp', ?_⟩
     simp only [Body.render, crlf, List.append_nil, List.nil_append, List.append_assoc, List.cons_append] at e3 ⊢
     rw [e3, ← hacc]
-    simp [eventsOf, hb, Body.events, Body.declared]
+    simp [eventsOf, hb, Body.events, Body.declared, Msg.declared, hbb]
   | chunked cs last ext trs =>
     rw [hb] at hbody hmax
     simp only [Body.bytes] at hmax
@@ -183,13 +210,17 @@ theorem msg_parse (g : Cfg) (m : Msg) (p : P) (rest : Bytes) (acc : List Ev)
       cases hfr : rfc7230Framing m.fields <;> simp [hfr, bodyMatches] at hbody ⊢
       simpa [bodyMatches] using hbody
     obtain ⟨decl, hfr, hbm⟩ := hfr
+    have hbb : m.bodiless = false := by
+      cases hbb : m.bodiless with
+      | false => rfl
+      | true => rw [hbl hbb] at hfr; cases hfr
     obtain ⟨v, t1, t2, tcl, t3, t4⟩ := rfc_chunked _ _ hfr
     simp only [bodyMatches, trailersWf, Bool.and_eq_true, List.all_eq_true, decide_eq_true_eq, beq_iff_eq,
       Bool.or_eq_true, bne_iff_ne, ne_eq] at hbm
     obtain ⟨⟨⟨⟨b1, b2⟩, b3⟩, b4⟩, ⟨⟨⟨c1, c2⟩, c3⟩, c4⟩⟩ := hbm
     have e3 := end_chunked g ph tok2 ((Body.chunked cs last ext trs).render ++ rest)
       accH v hst (by rw [hte, t1]) t2
-      (by rw [hcl]; exact tcl) (by rw [htr]; exact t3) htl
+      (by rw [hcl]; exact tcl) (by rw [htr]; exact t3) htl (by rw [hnb, hbb])
     rw [htr, ← t4] at e3
     obtain ⟨p', hp', e4⟩ := chunked_body g
       { ph with te := [], cl := [], tr := [], chunked := true, contentLength := -1, trailer := decl,
@@ -212,7 +243,7 @@ theorem msg_parse (g : Cfg) (m : Msg) (p : P) (rest : Bytes) (acc : List Ev)
     refine ⟨p', hp', ?_⟩
     simp only [crlf, List.append_assoc, List.cons_append, List.nil_append] at e3 e4 ⊢
     rw [e3, e4, ← hacc]
-    simp [eventsOf, hb, Body.declared]
+    simp [eventsOf, hb, Body.declared, Msg.declared, hbb]
 
 /-- pipelining: a sequence of well-formed messages -/
 theorem msgs_parse (g : Cfg) (ms : List Msg) :
